@@ -48,7 +48,9 @@ Inductive op :=
 | ODel (k v : bytes)
 | OBatch (adds dels : list (bytes * bytes))
 | OBackupRestore
-| OReopen.        (* close the store and open the same directory again *)
+| OReopen         (* close the store and open the same directory again *)
+| OBackup         (* one more backup of the store into the (one) backup directory *)
+| ORestore (cont : bool).   (* restore the latest backup into a fresh directory; cont: go on with that copy *)
 
 (* one step: new map and "the operation failed".  ord = the order in which the
    additions of one batch are taken (the identity in the plain reading; the code
@@ -60,6 +62,7 @@ Definition spec_step (ord : list (bytes * bytes) -> list (bytes * bytes)) (m : s
   | OBatch adds dels => match m_batch m (ord adds) dels with Some m' => (m', false) | None => (m, true) end
   | OBackupRestore => (m, false)
   | OReopen => (m, false)
+  | OBackup | ORestore _ => (m, false)   (* snapshots are kept by spec_bstep below, which never gets here *)
   end.
 
 (* final map and the failure flags of all steps *)
@@ -67,6 +70,32 @@ Fixpoint spec_run (ord : list (bytes * bytes) -> list (bytes * bytes)) (m : smap
   match ops with
   | [] => (m, [])
   | o :: r => let '(m1, e) := spec_step ord m o in let '(m2, es) := spec_run ord m1 r in (m2, e :: es)
+  end.
+
+(* Backups as a periodically run tool takes them: every OBackup adds a snapshot of the map to
+   one backup directory, ORestore yields the LATEST snapshot (in a fresh directory; with cont the
+   history goes on with that copy, else with the store the backups were taken from).  State =
+   (current map, latest snapshot if any).  ORestore without any backup fails and changes nothing.
+   OBackupRestore above is the one-shot variant with a backup directory of its own. *)
+Definition bmap := (smap * option smap)%type.
+Definition spec_bstep (ord : list (bytes * bytes) -> list (bytes * bytes)) (st : bmap) (o : op) : bmap * bool :=
+  let '(m, b) := st in
+  match o with
+  | OBackup => ((m, Some m), false)
+  | ORestore cont =>
+      match b with
+      | Some bm => ((if cont then bm else m, b), false)
+      | None => ((m, b), true)
+      end
+  | _ => let '(m', f) := spec_step ord m o in ((m', b), f)
+  end.
+(* what a restore shows: the latest snapshot *)
+Definition spec_restored (st : bmap) : option smap := snd st.
+
+Fixpoint spec_brun (ord : list (bytes * bytes) -> list (bytes * bytes)) (st : bmap) (ops : list op) : bmap * list bool :=
+  match ops with
+  | [] => (st, [])
+  | o :: r => let '(st1, e) := spec_bstep ord st o in let '(st2, es) := spec_brun ord st1 r in (st2, e :: es)
   end.
 
 (* per-key view of a batch *)
